@@ -139,6 +139,9 @@ def families(tier, rng):
     fams.append(("random_r", common.random_family(rng, 600 if big else 120), "seeded random machines with raise/always/onDone"))
     fams.append(("nested_par", common.nested_parallel_family(rng, 200 if big else 40),
                  "a parallel state holding a nested parallel state with 2-4 equal-depth sub-regions, left by transitions whose domain is the outer parallel state"))
+    fams.append(("hist_inside", common.history_inside_family(rng, 240 if big else 40),
+                 "a compound / parallel state (also as machine root) with a shallow / deep history child targeted from inside that state and "
+                 "from outside: accounting and 'never entered while active' for history targets (shape of former finding F21)"))
     return fams
 
 
